@@ -109,6 +109,25 @@ def paramStr (p : Param) : String :=
 
 def allMarkerWF (vs : List Value) : Bool := vs.all fun v => v.v.markerWF
 
+/-! Outside the modelled fragment: a marked argument holding a set with two members in ONE hash bucket.
+Go's `UnmarkDeep` rebuilds such a set through `cty.SetVal`, which re-adds the members in `Less` order, so
+the order inside the bucket can change; the shared `Payload.stripMarks` keeps it.  (Seen once in 3·10⁶
+random cases: the numbers 1 and 1+2⁻⁴⁷⁷ at 512 bits hash alike.)  Answered `unmodelled`, counted, not compared. -/
+def adjDup : List Int → Bool
+  | a :: b :: r => a == b || adjDup (b :: r)
+  | _ => false
+mutual
+def dupBucket : Payload → Bool
+  | .sset ids vs => adjDup ids || dupBucketL vs
+  | .seq vs | .smap _ vs => dupBucketL vs
+  | .marked _ r => dupBucket r
+  | _ => false
+def dupBucketL : List Payload → Bool
+  | [] => false
+  | v :: vs => dupBucket v || dupBucketL vs
+end
+def bucketOrderUnmodelled (vs : List Value) : Bool := vs.any fun v => v.containsMarked && dupBucket v.v
+
 /-- `fn.call` / `fn.proxy` / `fn.redesc` after decoding -/
 def runCall (spec : Spec) (rf : Option (Value → Res Payload)) (tf : TypeFn) (impl : ImplFn)
     (as : List Value) (entry : Spec → TypeFn → ImplFn → List Value → Out Value × List Event) : String :=
@@ -116,6 +135,7 @@ def runCall (spec : Spec) (rf : Option (Value → Res Payload)) (tf : TypeFn) (i
     | .ok (_, d) => d
     | _ => false
   if !allMarkerWF as then "marker-wf-violation"
+  else if bucketOrderUnmodelled as then "unmodelled"
   else if refineUnmodelled rf (callUnrefined spec tf impl as) dynShort then "unmodelled"
   else answer valStr (entry spec tf impl as)
 
@@ -142,6 +162,7 @@ def isImplEvent : Event → Bool
 /-- `fn.wrap` after decoding -/
 def runWrap (f : Func) (rf : Option (Value → Res Payload)) (ws : List Wrapper) (e : Entry) (as : List Value) : String :=
   if !allMarkerWF as then "marker-wf-violation"
+  else if bucketOrderUnmodelled as then "unmodelled"
   else
     match wrap f ws with
     | .ok f' =>
@@ -218,6 +239,7 @@ def handleFunc : Handler := fun op args =>
     let as ← as.mapM Value.ofSexp
     let spec : Spec := { params := ps, varParam := var, refine := rf.map toRefineFn }
     if !allMarkerWF as then pure "marker-wf-violation"
+    else if bucketOrderUnmodelled as then pure "unmodelled"
     else pure (answer tyStr (returnTypeForValuesPub spec tf as))
   | "fn.rt", [.list ps, var, rf, tf, .list ts] => do
     let ps ← ps.mapM decParam
